@@ -389,6 +389,7 @@ fn csv_in(file: bool, text: &str) -> Result<T, String> {
             let msg = e.to_string();
             let dup = match &e {
                 bbf::table::csv::error::TruthTableFromCsvError::DuplicateVariableName { name } => format!(" dup={}", if name.is_empty() { "~".to_string() } else { hex(name) }),
+                bbf::table::csv::error::TruthTableFromCsvError::NonBooleanCellValue { actual } => format!(" cell={}", if actual.is_empty() { "~".to_string() } else { hex(actual) }),
                 _ => String::new(),
             };
             if csv_err_name(&e) == "IOError" { Err(csv_err_name(&e).to_string()) } else { Err(format!("{}{} i.msg={}", csv_err_name(&e), dup, hex(&msg))) }
